@@ -6,6 +6,7 @@ implementation's own artefacts, and the occurrence oracles (C01–C09).
 import Driver.Dump
 import PmVerif.Model.ManyMatcher
 import PmVerif.Spec.Occurs
+import PmVerif.Spec.StrRun
 namespace Drv
 open Pm
 
@@ -66,6 +67,8 @@ structure E2EDom (K V P H M Pat : Type) where
   /-- compare the baseline's results in emission order (false: as multisets, where the order
   depends on a hash iteration order, c9) -/
   orderedBaseline : Bool := true
+  /-- decidable per-program condition of the anchored-traversal theorem, if the domain has one -/
+  programOK : Option (Automaton K P → List Pat → Bool) := none
   /-- hosts to enumerate exhaustively when the replay hits a model guard (search for a
   concrete failing input on the dumped automaton) -/
   windows : List Pat → List H := fun _ => []
@@ -272,6 +275,9 @@ def handleE2E {K V P H M Pat} [DecidableEq K] [DecidableEq V] [DecidableEq P]
      s!"asks={answers.length}", s!"yes={(answers.filter id).length}"] ++
     (if nMerges > 0 then ["merge"] else []) ++ (if nFuse > 0 then ["fuse"] else []) ++
     (if nOcc > 0 then ["occ"] else []) ++ (if guardHit then ["outside-tbuild-guard"] else []) ++
+    (match dom.programOK with
+     | none => []
+     | some f => if f A pats then ["programOK"] else ["programOK-FAILS"]) ++
     (if nMatches > 0 || nMerges > 0 || nFuse > 0 then ["nt"] else []) }
   pure out.render
 
@@ -318,7 +324,7 @@ def strE2E : E2EDom Nat Nat CharPred (List Nat) StrPos (List CharVar) :=
     pKey := pNat, pCons := pSCons, pPat := pList pCharVar, pHost := pList pNat, pMap := pStrPos,
     sMap := sStrPos, convert := fun p => some (strConstraints p), consEq := fun a b => a == b,
     extraKeys := fun _ => [], judge := some (judgeExpected sStrPos strExpected),
-    windows := strWindows, sHost := sNats }
+    windows := strWindows, sHost := sNats, programOK := some strProgramOK }
 
 end Drv
 
